@@ -77,14 +77,14 @@ def programs(tier):
     return out
 
 
-def abi_frame_programs(tier):
+def abi_frame_programs(tier, ns=None):
     """ABI values allocated inside a subroutine: frame cells under the frame-pointer convention (at most 128 of them, the
     rest falls back to scratch slots), scratch slots otherwise.  Every value gets a marker and is read back."""
     import abiprog
     pt = abiprog.pt
     abi = pt.abi
     out = []
-    for n in ((5, 127, 128, 129, 140) if tier == "quick" else (1, 5, 64, 126, 127, 128, 129, 130, 140, 200)):
+    for n in ns or ((5, 127, 128, 129, 140) if tier == "quick" else (1, 5, 64, 126, 127, 128, 129, 130, 140, 200)):
         for with_output in (True, False):
             def build(n=n, with_output=with_output):
                 def body(output=None):
